@@ -48,6 +48,11 @@ def run(ctx):
     ctx.extra['wrap_adjacent_iss_scenarios'] = sum(1 for s in scs if 'iss' in s['a'])
     ctx.sample(dict(kind='scenario', scenario=scs[1]))
     ctx.sample(dict(kind='trace', events=tcplib.sample_trace(segs[1], 12)))
+    # ---- the scripted raw peer (harness/tcprawd): ACK patterns, windows and options a real-stack peer never produces (mid-segment
+    #      ACKs, shrinking windows with pretended loss, tiny MSS ...) re-cut and retransmit queued segments; the C01 clauses judge
+    #      every byte put on the wire and every byte read
+    import checks.rawpeer as rawpeer
+    rawpeer.raw_peer(ctx, ['C01'], 40, 300)
     # ---- binding self-test: corrupt one delivered byte, drop one arrive event
     # (a fault-free trace: with losses or duplicates a missing arrival may be covered by another copy of the segment)
     clean = lambda s: not any(e['ev'] == 'drop' or (e['ev'] == 'arrive' and e.get('how') != 'pass') for e in s)
